@@ -63,9 +63,9 @@ add("C15", "exploration",
     "deterministic simulation: real signing round with Byzantine members and seeded arrival orders; share-set invariant + bounded-liveness oracle")
 
 add("C17", "exploration",
-    "seeded operation histories on the real TxPool (add fresh/duplicate/executed/evicted, pack against plan-set state nonces, mark-executed with evictions, unmark (reorg), lookups, simulated cycle-ticker firings, node restarts) checked after every operation against a sequential reference pool and the statement's pack rules (no duplicates, <=200, no executed hash, per-sender ascending nonces, none ahead of the expected nonce, eligible pending transactions offered); concurrent part: 2-4 client tasks issue the same operations under the simulator's seeded scheduler (yield points inserted at function entries, lock sites and store writes of the pool code; chain lock discipline as in the node), with at-most-once and structural invariants at quiescence and a per-hash linearizability check of the recorded history (porcupine). Sampling, not proof.",
-    "trusted: reference pool model, the inserted yield points are the interleaving granularity (races inside a function body between two yield points are not schedulable), goleveldb/gmap/lru run real but are not under test",
-    "deterministic simulation: op histories vs reference pool; seeded interleavings at inserted yield points; porcupine on recorded histories")
+    "seeded operation histories on the real TxPool (add fresh/duplicate/executed/evicted, pack against plan-set state nonces, mark-executed with evictions, unmark (reorg), lookups, simulated cycle-ticker firings, node restarts) checked after every operation against a sequential reference pool and the statement's pack rules (no duplicates, <=200, no executed hash, per-sender ascending nonces, none ahead of the expected nonce, eligible pending transactions offered); concurrent part: 2-4 client tasks issue the same operations under the simulator's seeded scheduler (yield points inserted at function entries, lock sites and store writes of the pool code; chain lock discipline as in the node), with at-most-once and structural invariants at quiescence and a per-hash linearizability check of the recorded history (porcupine); then a second stage re-runs 60 (quick) / 800 (thorough) seeded concurrent plans in a -race build whose task hand-off is invisible to the race detector, so that any two pool accesses the simulator ordered but the node's own locks do not order are reported as a data race of that plan (filtered to stacks inside the pool). Sampling, not proof.",
+    "trusted: reference pool model, the inserted yield points are the interleaving granularity (effects of races inside a function body between two yield points are not schedulable; the race stage reports their missing happens-before edge instead), the Go race detector's bounded access history, goleveldb/gmap/lru run real but are not under test",
+    "deterministic simulation: op histories vs reference pool; seeded interleavings at inserted yield points; porcupine on recorded histories; race detector over simulator-chosen schedules")
 
 add("C07", "exploration",
     "a booted real node with its ingress handlers receives honestly signed native and EIP-155 wrapped transactions, and the same transactions tampered by exactly one mutation (substitution of each authenticated field with or without recomputed hash, signature r/s/v bit flips, spliced signature, single bit flips of the marshalled bytes, outer-field substitutions and inner RLP re-encodings under the original signature) through the peer-to-peer receive path, the client write topic and both branches of the queued write handler, handler goroutines running as tasks of the seeded scheduler. Exact oracle at quiescence: the pending pool equals the honestly signed transactions that were delivered intact. Sampling, not proof.",
